@@ -223,6 +223,17 @@ def compute(comp):
         return _fmt(data.Duration(years=a[0], months=a[1], days=a[2]).get_days_and_seconds())
     if kind == "unix":
         return str(data.get_timepoint_from_seconds_since_unix_epoch(a[0], utc=True))
+    if kind == "unixlocal":
+        # the same translation into a LOCAL zone (patched): west of UTC the epoch lies on the last day of a year
+        from metomi.isodatetime import timezone as tzmod
+        saved = tzmod.get_local_time_zone
+        tzmod.get_local_time_zone = lambda: (a[1], a[2])
+        try:
+            return str(data.get_timepoint_from_seconds_since_unix_epoch(a[0], utc=False))
+        finally:
+            tzmod.get_local_time_zone = saved
+    if kind == "since":
+        return str(_tp(a[0]).seconds_since_unix_epoch)
     if kind == "parse":
         from metomi.isodatetime import parsers
         return str(parsers.TimePointParser().parse(a[0]))
@@ -491,8 +502,15 @@ def g_comp(rng):
     if r < 0.82:
         return ("durdays", rng.choice([0, 1, 4]), rng.choice([0, 1, 13]), rng.choice([0, 1, 400]))
     if r < 0.85:
-        return ("unix", rng.choice([0, 86400 * 59, 86400 * 365, 951782400, -86400 * 306,
-                                    rng.randint(0, 2 * 10 ** 9)]))
+        n = rng.choice([0, 86400 * 59, 86400 * 365, 951782400, -86400 * 306, rng.randint(0, 2 * 10 ** 9)])
+        k = rng.random()
+        if k < 0.4:
+            return ("unix", n)
+        if k < 0.8:
+            return ("unixlocal", rng.choice([0, 1, 3600, 86400 * 59, n]),
+                    *rng.choice([(-5, 0), (-5, 0), (-9, -30), (-1, 0), (5, 30), (0, 0), (-12, 0)]))
+        p = g_tp(rng)
+        return ("since", p)
     if r < 0.90:
         date = g_date(rng)
         if rng.random() < 0.5:
